@@ -429,7 +429,12 @@ class MiniEval:
                 args.extend(self.expr(a.value, env))
             else:
                 args.append(self.expr(a, env))
-        kwargs = {k.arg: self.expr(k.value, env) for k in e.keywords if k.arg}
+        kwargs = {}
+        for k in e.keywords:
+            if k.arg is None:
+                kwargs.update(self.expr(k.value, env))
+            else:
+                kwargs[k.arg] = self.expr(k.value, env)
         f = e.func
         if isinstance(f, ast.Name):
             fv = env.get(f.id, self.globals.get(f.id))
